@@ -141,11 +141,13 @@ def run_d1(shard, rec):
             addrs = [0, 1, 127, 128, 129, 0x7FFF, 0x8000, 0xFF7E, 0xFF7F, 0xFF80, 0xFFFC, 0xFFFD, 0xFFFE, 0xFFFF]
             if tier != 'quick':
                 addrs = sorted(set(addrs + list(range(0xFF7E, 0x10000)) + list(range(0, 130))))
-        for f1 in f1s:
+        # characters that mean something in operand syntax: rendered in character base they must still assemble back
+        syn = [] if tier != 'quick' else [v for v in (0x22, 0x27, 0x28, 0x29, 0x2C, 0x3B, 0x5C, 0xA2, 0xA8, 0xA9, 0xDC) if v not in f1s]
+        for f1 in f1s + syn:
             for f2 in f2s:
                 seq = c05.code_for(g, op, f1, f2, f1 ^ 0x55)
                 case = None
-                for base in bases:
+                for base in (bases if f1 in f1s else [b for b in bases if 'c' in b]):
                     for cfg in CFG:
                         case = {'kind': 'd1', 'seq': seq, 'addr': 0x8000, 'base': base, 'cfg': [cfg[0], cfg[1], cfg[2], 0]}
                         try:
